@@ -110,6 +110,7 @@ type Conn struct {
 	wrShut bool   // CloseWrite was called on this end
 
 	rdl, wdl time.Time
+	wdlErr   error // fault: arming a (non-zero) write deadline fails with this error
 
 	chunker ChunkFunc
 
@@ -367,6 +368,11 @@ func (c *Conn) SetDeadline(t time.Time) error {
 	if c.closed {
 		return net.ErrClosed
 	}
+	if c.wdlErr != nil && !t.IsZero() {
+		c.rdl = t
+		c.pr.broadcast()
+		return c.wdlErr
+	}
 	c.rdl, c.wdl = t, t
 	c.pr.broadcast()
 	return nil
@@ -384,12 +390,23 @@ func (c *Conn) SetReadDeadline(t time.Time) error {
 	return nil
 }
 
+// FailWriteDeadlines makes every later attempt to arm a non-zero write deadline on this end fail with err
+// (the deadline is then not applied); clearing a deadline keeps working.
+func (c *Conn) FailWriteDeadlines(err error) {
+	c.pr.mu.Lock()
+	c.wdlErr = err
+	c.pr.mu.Unlock()
+}
+
 // SetWriteDeadline implements net.Conn.
 func (c *Conn) SetWriteDeadline(t time.Time) error {
 	c.pr.mu.Lock()
 	defer c.pr.mu.Unlock()
 	if c.closed {
 		return net.ErrClosed
+	}
+	if c.wdlErr != nil && !t.IsZero() {
+		return c.wdlErr
 	}
 	c.wdl = t
 	c.pr.broadcast()
